@@ -269,6 +269,34 @@ def check_case(case):
                     msg = 'labels on a wrap-free series'
                 if msg:
                     viols.append(('good:structure', '%s col %d: %s; got %s' % (describe(case), ci, msg, got.tolist()[:40])))
+    if case[0] in ('giant', 'edges') and not viols:
+        # state between calls at the larger scope: right after the labelled recording, a wrap-free series of the SAME shape
+        # (all -1), then two-column inputs of one shape whose wrap-free column changes place
+        n = len(cols[0])
+        flat = np.linspace(0.2, 1.1, n)
+        lab = ref_partition(cols[0], step)[0]
+        none = np.full(n, -1, dtype=int)
+        for hname, mk, want in (('wrap-free series of the same shape', lambda: flat.reshape(phase.shape).copy(), [none]),
+                                ('columns (recording, wrap-free)', lambda: np.c_[cols[0], flat], [lab, none]),
+                                ('columns (wrap-free, recording)', lambda: np.c_[flat, cols[0]], [none, lab]),
+                                ('columns (recording, wrap-free) again', lambda: np.c_[cols[0], flat], [lab, none])):
+            for rg in (False, True):
+                try:
+                    out = np.asarray(get_cycle_vector(mk(), return_good=rg, phase_step=step))
+                except Exception as e:
+                    viols.append(('raise:%s:history' % type(e).__name__, '%s then %s raised %r' % (describe(case), hname, e)))
+                    continue
+                trans += 1
+                for ci, w in enumerate(want):
+                    got = out[:, ci] if out.ndim == 2 and out.shape[1] > ci and out.shape[0] == n else None
+                    if got is None:
+                        viols.append(('shape:history', '%s then %s: output shape %r' % (describe(case), hname, out.shape)))
+                        break
+                    if w is none and np.any(got != -1):
+                        viols.append(('history:labels-on-wrap-free', '%s then %s (return_good=%s): wrap-free column %d carries labels up to %d'
+                                      % (describe(case), hname, rg, ci, int(got.max()))))
+                    elif w is not none and not rg and not np.array_equal(got, w):
+                        viols.append(('history:labels', '%s then %s: column %d labels differ from the wrap partition' % (describe(case), hname, ci)))
     return Outcome(cls='wraps' if anywrap else 'nowrap', transitions=trans, viols=viols, nontrivial=anywrap)
 
 
